@@ -1,6 +1,6 @@
 \* StaticSound, one handle command per session (quick): length 5 (unsliced and the slice 1..4), every start / loop region /
 \* reverse, rate +-1, seek_to(every target) | seek_by(+-2) | set_loop_region(every region) issued after 1 or 4 output frames.
-\* Measured: 959 158 distinct states, 35-45 s with 4 workers.  Thorough: lengths 6 and 7, command after 0..8 frames,
+\* Measured: 959 204 distinct states, 35-45 s with 4 workers.  Thorough: lengths 6 and 7, command after 0..8 frames,
 \* seek_by +-{1,2,3}; rates +-{1, 1/2, 2} with set_playback_rate on length 5; two commands per session on length 5.
 \* run: tlc -workers 4 -config StaticSound_cmd_q.cfg MC_StaticSound.tla
 SPECIFICATION Spec
